@@ -42,24 +42,6 @@ Qed.
 Lemma qabs_unit : forall x, -(1) <= x <= 1 -> 0 <= qabs x <= 1.
 Proof. intros x H. apply qabs_le1. exact H. Qed.
 
-Lemma not_tiny_spec : forall x, tiny x = false -> x == 0 \/ (1 # 510) <= qabs x.
-Proof.
-  intros x H. unfold tiny in H. apply andb_false_iff in H as [H|H].
-  - left. apply negb_false_iff in H. apply Qeqb_true in H. exact H.
-  - right. apply Qltb_false in H. exact H.
-Qed.
-
-(* under the guard: the count is 0 exactly when the applied speed is 0 *)
-Lemma pwm_zero_eff : forall eff, -(1) <= eff <= 1 -> tiny eff = false ->
-  (pwm_of (qabs eff) =? 0)%Z = Qeqb eff 0.
-Proof.
-  intros eff H T. pose proof (qabs_unit eff H) as Ha. pose proof (pwm_of_zero_iff (qabs eff) Ha) as Z.
-  destruct (qabs_spec eff) as (A1 & A2 & _).
-  destruct (Qeqb eff 0) eqn:E.
-  - apply Qeqb_true in E. apply Z.eqb_eq. apply Z. rewrite A1 by lra. lra.
-  - apply Qeqb_false in E. apply Z.eqb_neq. intro P. apply Z in P.
-    destruct (not_tiny_spec eff T) as [T0|T1]; [contradiction|lra].
-Qed.
 
 (* ------------------------------------------------------------------ *)
 (* one drive change                                                    *)
@@ -76,17 +58,16 @@ Definition mode_of (eff : Q) : mode := if Qeqb eff 0 then Coast else Drive.
 Lemma d_apply_spec : forall p d store v any,
   let sp := Qred (qclamp (-(1)) 1 v) in
   let eff := eff_of (dm_inv d) sp in
-  tiny eff = false ->
   fst (d_apply p d store v) = mkDM (if store then sp else dm_speed d) (dm_inv d) (mode_of eff) /\
   map dconv (snd (d_apply p d store v)) = hmconv p (MLvl any eff (mode_of eff)).
 Proof.
-  intros [[in1 in2] en] d store v any sp eff T.
+  intros [[in1 in2] en] d store v any sp eff.
   assert (Hs : -(1) <= sp <= 1) by apply sp_bounds.
   assert (He : -(1) <= eff <= 1) by (unfold eff, eff_of; destruct (dm_inv d); lra).
   pose proof (qabs_unit eff He) as Ha.
   unfold d_apply. fold sp. change (if dm_inv d then - sp else sp) with eff.
   rewrite (qabs_form eff). rewrite (proj2 (Qltb_false 1 (qabs eff))) by lra.
-  rewrite (pwm_zero_eff eff He T). cbn [fst snd]. split; [reflexivity|].
+  cbn [fst snd]. split; [reflexivity|].
   unfold hmconv, mode_of. destruct (Qeqb eff 0) eqn:E.
   - apply Qeqb_true in E. rewrite (proj2 (pwm_of_zero_iff (qabs eff) Ha)); [reflexivity|].
     destruct (qabs_spec eff) as (A1 & _). rewrite A1 by lra. lra.
@@ -108,14 +89,12 @@ Lemma mrel_ghost : forall m d g, mrel m d -> mrel (with_ghost m g) d.
 Proof. intros m d g H. exact H. Qed.
 
 Lemma set_speed_sim : forall p m d q, dm_inv d = inverted m ->
-  tiny (eff_of (inverted m) (Qred (clampq q))) = false ->
   mrel (fst (set_speed_q m q)) (fst (d_apply p d true q)) /\
   map dconv (snd (d_apply p d true q)) = flat_map (hmconv p) (snd (set_speed_q m q)) /\
   lvl_applied (snd (set_speed_q m q)) = [eff_of (inverted m) (Qred (clampq q))].
 Proof.
-  intros p m d q Hi T. unfold clampq in *.
-  rewrite <- Hi in T.
-  destruct (d_apply_spec p d true q (Qred (qclamp (-(1)) 1 q)) T) as [S1 S2].
+  intros p m d q Hi. unfold clampq in *.
+  destruct (d_apply_spec p d true q (Qred (qclamp (-(1)) 1 q))) as [S1 S2].
   rewrite S1, S2. unfold set_speed_q, apply_speed, clampq. cbn [fst snd inverted speed flat_map lvl_applied app].
   rewrite app_nil_r. rewrite Hi. split; [|split; reflexivity].
   unfold mrel. cbn. repeat split; try reflexivity.
@@ -137,16 +116,13 @@ Qed.
 Lemma invert_sim : forall p m d, mrel m d ->
   let m' := mkMotor (pins m) (speed m) (negb (inverted m)) (mmode m) (applied m) (ghost m) in
   let d' := mkDM (dm_speed d) (negb (dm_inv d)) (dm_mode d) in
-  tiny (eff_of (negb (inverted m)) (speed m)) = false ->
   mrel (fst (apply_speed m' (speed m))) (fst (d_apply p d' false (dm_speed d))) /\
   map dconv (snd (d_apply p d' false (dm_speed d))) = flat_map (hmconv p) (snd (apply_speed m' (speed m))).
 Proof.
-  intros p m d (R1 & R2 & R3 & R4 & R5 & R6) m' d' T.
+  intros p m d (R1 & R2 & R3 & R4 & R5 & R6) m' d'.
   assert (Sp : Qred (qclamp (-(1)) 1 (dm_speed d)) = speed m).
   { rewrite R1. rewrite qclamp_id by exact R6. exact R5. }
-  assert (T' : tiny (eff_of (dm_inv d') (Qred (qclamp (-(1)) 1 (dm_speed d)))) = false).
-  { rewrite Sp. unfold d'. cbn [dm_inv]. rewrite R2. exact T. }
-  destruct (d_apply_spec p d' false (dm_speed d) (speed m) T') as [S1 S2].
+  destruct (d_apply_spec p d' false (dm_speed d) (speed m)) as [S1 S2].
   rewrite S1, S2, Sp. unfold apply_speed, m', d'. cbn [fst snd inverted speed dm_inv dm_speed flat_map app].
   rewrite app_nil_r, R2. split; [|reflexivity].
   unfold mrel. cbn. repeat split; try assumption; try reflexivity; apply R6.
@@ -154,13 +130,12 @@ Qed.
 
 (* ---- ramp ---- *)
 Lemma ramp_loop_sim : forall ks p m d start target delay, dm_inv d = inverted m ->
-  forallb (fun x => negb (tiny x)) (lvl_applied (snd (ramp_loop ks m start ((target - start) / inject_Z dc_ramp_steps) delay))) = true ->
   (ks <> [] \/ mrel m d) ->
   mrel (fst (ramp_loop ks m start ((target - start) / inject_Z dc_ramp_steps) delay)) (fst (d_ramp_loop ks p d start target delay)) /\
   map dconv (snd (d_ramp_loop ks p d start target delay)) =
   flat_map (hmconv p) (snd (ramp_loop ks m start ((target - start) / inject_Z dc_ramp_steps) delay)).
 Proof.
-  induction ks as [|k r IH]; intros p m d start target delay Hi T Hne.
+  induction ks as [|k r IH]; intros p m d start target delay Hi Hne.
   - cbn. destruct Hne as [H|H]; [contradiction|]. split; [exact H|reflexivity].
   - cbn [ramp_loop d_ramp_loop] in *.
     set (sv := (target - start) / inject_Z dc_ramp_steps) in *.
@@ -172,16 +147,11 @@ Proof.
     destruct (d_apply p d true (start + sv * inject_Z k)) as [d1 de1] eqn:Ed.
     destruct (ramp_loop r m1 start sv delay) as [m2 e3] eqn:Eh2.
     cbn [fst snd] in *.
-    rewrite !lvl_applied_app, !forallb_app in T. apply andb_true_iff in T as [T1 T2]. apply andb_true_iff in T2 as [_ T3].
-    assert (T1' : tiny (eff_of (inverted m) (Qred (clampq (start + sv * inject_Z k)))) = false).
-    { assert (L : lvl_applied e1 = [eff_of (inverted m) (Qred (clampq (start + sv * inject_Z k)))]).
-      { unfold set_speed_q, apply_speed in Eh. injection Eh as _ <-. reflexivity. }
-      rewrite L in T1. cbn in T1. rewrite andb_true_r in T1. apply negb_true_iff in T1. exact T1. }
-    destruct (S T1') as (R1 & S2 & _).
+    destruct S as (R1 & S2 & _).
     assert (Hi1 : dm_inv d1 = inverted m1) by (destruct R1 as (_ & X & _); exact X).
     specialize (IH p m1 d1 start target delay Hi1).
     fold sv in IH. rewrite Eh2 in IH. cbn [fst snd] in IH.
-    destruct (IH T3 (or_intror R1)) as [I1 I2].
+    destruct (IH (or_intror R1)) as [I1 I2].
     destruct (d_ramp_loop r p d1 start target delay) as [d2 de3]. cbn [fst snd] in *.
     split; [exact I1|].
     rewrite !map_app, !flat_map_app, S2, I2. f_equal. f_equal.
@@ -209,9 +179,6 @@ Proof.
   split; [change (inject_Z 0) with 0; rewrite F; reflexivity|]. split; [unfold dur0; rewrite F; reflexivity|exact H1].
 Qed.
 
-Lemma forallb_single : forall x, forallb (fun y => negb (tiny y)) [x] = true -> tiny x = false.
-Proof. intros x H. cbn in H. rewrite andb_true_r in H. apply negb_true_iff. exact H. Qed.
-
 Lemma ramp_run_dc : forall m target d, ramp_run m target d =
   ramp_loop (zsteps dc_ramp_steps) m (speed m) ((target - speed m) / inject_Z dc_ramp_steps) (d / inject_Z dc_ramp_steps).
 Proof. intros m target d. unfold ramp_run. rewrite ramp_steps_20. reflexivity. Qed.
@@ -223,13 +190,11 @@ Lemma sim_op_0 : forall p m d v, mrel m d -> motor_in_range m (MSetSpeed v) = tr
   (exists x, mresult (mstep m (MSetSpeed v)) = Ok x).
 Proof.
   intros p m d v R G. pose proof R as (R1 & R2 & R3 & R4 & R5 & R6).
-  unfold motor_in_range in G. apply andb_true_iff in G as [Ga Gt].
+  unfold motor_in_range in G. pose proof G as Ga.
   (* set_speed *)
     destruct (speed_ok_spec v Ga) as [_ Cs]. cbn [mstep dmstep] in *. rewrite Cs in *.
-    rewrite ok_with_events in Gt. rewrite ok_with_state, ok_with_events, ok_with_result.
+    rewrite ok_with_state, ok_with_events, ok_with_result.
     destruct (set_speed_sim p m d (qval v) R2) as (S1 & S2 & S3).
-    { rewrite S3 in Gt || idtac. pose proof (set_speed_q_fields m (qval v)) as F. cbv zeta in F.
-      apply forallb_single. unfold set_speed_q, apply_speed in Gt. cbn [snd lvl_applied] in Gt. exact Gt. }
     destruct (d_apply p d true (qval v)) as [d1 de]. cbn [fst snd] in *.
     split; [apply mrel_ghost; exact S1|]. split; [exact S2|]. split; [reflexivity|eexists; reflexivity].
 Qed.
@@ -241,13 +206,12 @@ Lemma sim_op_1 : forall p m d ov, mrel m d -> motor_in_range m (MBackward ov) = 
   (exists x, mresult (mstep m (MBackward ov)) = Ok x).
 Proof.
   intros p m d ov R G. pose proof R as (R1 & R2 & R3 & R4 & R5 & R6).
-  unfold motor_in_range in G. apply andb_true_iff in G as [Ga Gt].
+  unfold motor_in_range in G. pose proof G as Ga.
   (* backward *)
     destruct (speed_ok_spec (dflt_back ov) Ga) as [_ Cs]. cbn [mstep dmstep] in *. rewrite Cs in *.
-    rewrite ok_with_events in Gt. rewrite ok_with_state, ok_with_events, ok_with_result.
+    rewrite ok_with_state, ok_with_events, ok_with_result.
     change (if Qltb (qval (dflt_back ov)) 0 then - qval (dflt_back ov) else qval (dflt_back ov)) with (qabs (qval (dflt_back ov))).
     destruct (set_speed_sim p m d (- qabs (qval (dflt_back ov))) R2) as (S1 & S2 & S3).
-    { apply forallb_single. unfold set_speed_q, apply_speed in Gt. cbn [snd lvl_applied] in Gt. exact Gt. }
     destruct (d_apply p d true (- qabs (qval (dflt_back ov)))) as [d1 de]. cbn [fst snd] in *.
     split; [apply mrel_ghost; exact S1|]. split; [exact S2|]. split; [reflexivity|eexists; reflexivity].
 Qed.
@@ -259,7 +223,7 @@ Lemma sim_op_2 : forall p m d , mrel m d -> motor_in_range m (MStop) = true ->
   (exists x, mresult (mstep m (MStop)) = Ok x).
 Proof.
   intros p m d  R G. pose proof R as (R1 & R2 & R3 & R4 & R5 & R6).
-  unfold motor_in_range in G. apply andb_true_iff in G as [Ga Gt].
+  unfold motor_in_range in G. pose proof G as Ga.
   (* stop *)
     cbn [mstep dmstep]. rewrite ok_with_state, ok_with_events, ok_with_result.
     destruct (halt_sim p m d Brake (or_introl eq_refl) R2) as [S1 S2].
@@ -274,7 +238,7 @@ Lemma sim_op_3 : forall p m d , mrel m d -> motor_in_range m (MCoast) = true ->
   (exists x, mresult (mstep m (MCoast)) = Ok x).
 Proof.
   intros p m d  R G. pose proof R as (R1 & R2 & R3 & R4 & R5 & R6).
-  unfold motor_in_range in G. apply andb_true_iff in G as [Ga Gt].
+  unfold motor_in_range in G. pose proof G as Ga.
   (* coast *)
     cbn [mstep dmstep]. rewrite ok_with_state, ok_with_events, ok_with_result.
     destruct (halt_sim p m d Coast (or_intror eq_refl) R2) as [S1 S2].
@@ -289,11 +253,10 @@ Lemma sim_op_4 : forall p m d , mrel m d -> motor_in_range m (MInvert) = true ->
   (exists x, mresult (mstep m (MInvert)) = Ok x).
 Proof.
   intros p m d  R G. pose proof R as (R1 & R2 & R3 & R4 & R5 & R6).
-  unfold motor_in_range in G. apply andb_true_iff in G as [Ga Gt].
+  unfold motor_in_range in G. pose proof G as Ga.
   (* invert *)
-    cbn [mstep dmstep] in *. rewrite ok_with_events in Gt. rewrite ok_with_state, ok_with_events, ok_with_result.
+    cbn [mstep dmstep] in *. rewrite ok_with_state, ok_with_events, ok_with_result.
     destruct (invert_sim p m d R) as [S1 S2].
-    { apply forallb_single. unfold apply_speed in Gt. cbn [snd lvl_applied inverted] in Gt. exact Gt. }
     destruct (d_apply p _ false (dm_speed d)) as [d1 de]. cbn [fst snd] in *.
     split; [apply mrel_ghost; exact S1|]. split; [exact S2|]. split; [reflexivity|eexists; reflexivity].
 Qed.
@@ -305,18 +268,18 @@ Lemma sim_op_5 : forall p m d t du, mrel m d -> motor_in_range m (MRamp t du) = 
   (exists x, mresult (mstep m (MRamp t du)) = Ok x).
 Proof.
   intros p m d t du R G. pose proof R as (R1 & R2 & R3 & R4 & R5 & R6).
-  unfold motor_in_range in G. apply andb_true_iff in G as [Ga Gt].
+  unfold motor_in_range in G. pose proof G as Ga.
   (* ramp *)
     apply andb_true_iff in Ga as [Gs Gd].
     destruct (speed_ok_spec t Gs) as [_ Cs]. destruct (dur_ok_spec du Gd) as (Pl & D0 & Dn).
     cbn [mstep dmstep] in *. rewrite Pl, Cs in *.
-    rewrite ok_with_events in Gt. rewrite ok_with_state, ok_with_events, ok_with_result.
+    rewrite ok_with_state, ok_with_events, ok_with_result.
     unfold d_ramp. rewrite D0, R1.
     assert (Ct : qclamp (-(1)) 1 (qval t) = qval t).
     { unfold speed_ok in Gs. apply andb_true_iff in Gs as [Gs G2]. apply andb_true_iff in Gs as [_ G1].
       apply Qleb_true in G1, G2. apply qclamp_id. split; assumption. }
-    rewrite Ct. rewrite ramp_run_dc in Gt. rewrite ramp_run_dc.
-    destruct (ramp_loop_sim (zsteps dc_ramp_steps) p m d (speed m) (qval t) (qval du / inject_Z dc_ramp_steps) R2 Gt) as [S1 S2].
+    rewrite Ct. rewrite ramp_run_dc.
+    destruct (ramp_loop_sim (zsteps dc_ramp_steps) p m d (speed m) (qval t) (qval du / inject_Z dc_ramp_steps) R2) as [S1 S2].
     { left. rewrite ramp_steps_20. exact steps20_ne. }
     destruct (d_ramp_loop _ p d (speed m) (qval t) _) as [d1 de]. cbn [fst snd] in *.
     split; [apply mrel_ghost; exact S1|]. split; [exact S2|]. split; [reflexivity|eexists; reflexivity].
@@ -329,7 +292,7 @@ Lemma sim_op_6 : forall p m d du v, mrel m d -> motor_in_range m (MRunFor du v) 
   (exists x, mresult (mstep m (MRunFor du v)) = Ok x).
 Proof.
   intros p m d du v R G. pose proof R as (R1 & R2 & R3 & R4 & R5 & R6).
-  unfold motor_in_range in G. apply andb_true_iff in G as [Ga Gt].
+  unfold motor_in_range in G. pose proof G as Ga.
   (* run_for *)
     apply andb_true_iff in Ga as [Gd Gs].
     destruct (speed_ok_spec v Gs) as [_ Cs]. destruct (dur_ok_spec du Gd) as (Pl & D0 & Dn).
@@ -337,13 +300,7 @@ Proof.
     pose proof (set_speed_sim p m d (qval v) R2) as S.
     destruct (set_speed_q m (qval v)) as [m1 e1] eqn:Eh.
     destruct (d_apply p d true (qval v)) as [d1 de1] eqn:Ed.
-    assert (T : tiny (eff_of (inverted m) (Qred (clampq (qval v)))) = false).
-    { unfold halt in Gt. rewrite ok_with_events in Gt. cbn [snd] in Gt.
-      assert (L : lvl_applied e1 = [eff_of (inverted m) (Qred (clampq (qval v)))]).
-      { unfold set_speed_q, apply_speed in Eh. injection Eh as _ <-. reflexivity. }
-      rewrite lvl_applied_app, L in Gt. cbn [app forallb] in Gt. apply andb_true_iff in Gt as [Gt _].
-      apply negb_true_iff. exact Gt. }
-    destruct (S T) as (S1 & S2 & _). cbn [fst snd] in S1, S2.
+    destruct S as (S1 & S2 & _). cbn [fst snd] in S1, S2.
     assert (Hi1 : dm_inv d1 = inverted m1) by (destruct S1 as (_ & X & _); exact X).
     destruct (halt_sim p m1 d1 Brake (or_introl eq_refl) Hi1) as [H1 H2].
     destruct (halt m1 Brake) as [m2 e2] eqn:Eh2. destruct (d_halt p d1 Brake) as [d2 de2] eqn:Ed2.
@@ -359,7 +316,7 @@ Lemma sim_op_7 : forall p m d , mrel m d -> motor_in_range m (MGetSpeed) = true 
   (exists x, mresult (mstep m (MGetSpeed)) = Ok x).
 Proof.
   intros p m d  R G. pose proof R as (R1 & R2 & R3 & R4 & R5 & R6).
-  unfold motor_in_range in G. apply andb_true_iff in G as [Ga Gt].
+  unfold motor_in_range in G. pose proof G as Ga.
   cbn. split; [exact R|]. split; [reflexivity|]. split; [rewrite R1; reflexivity|eexists; reflexivity].
 Qed.
 
@@ -370,7 +327,7 @@ Lemma sim_op_8 : forall p m d , mrel m d -> motor_in_range m (MGetApplied) = tru
   (exists x, mresult (mstep m (MGetApplied)) = Ok x).
 Proof.
   intros p m d  R G. pose proof R as (R1 & R2 & R3 & R4 & R5 & R6).
-  unfold motor_in_range in G. apply andb_true_iff in G as [Ga Gt].
+  unfold motor_in_range in G. pose proof G as Ga.
   cbn. split; [exact R|]. split; [reflexivity|]. split; [rewrite R1, R2, R4; reflexivity|eexists; reflexivity].
 Qed.
 
@@ -381,7 +338,7 @@ Lemma sim_op_9 : forall p m d , mrel m d -> motor_in_range m (MIsInverted) = tru
   (exists x, mresult (mstep m (MIsInverted)) = Ok x).
 Proof.
   intros p m d  R G. pose proof R as (R1 & R2 & R3 & R4 & R5 & R6).
-  unfold motor_in_range in G. apply andb_true_iff in G as [Ga Gt].
+  unfold motor_in_range in G. pose proof G as Ga.
   cbn. split; [exact R|]. split; [reflexivity|]. split; [rewrite R2; reflexivity|eexists; reflexivity].
 Qed.
 
@@ -392,7 +349,7 @@ Lemma sim_op_10 : forall p m d , mrel m d -> motor_in_range m (MGetMode) = true 
   (exists x, mresult (mstep m (MGetMode)) = Ok x).
 Proof.
   intros p m d  R G. pose proof R as (R1 & R2 & R3 & R4 & R5 & R6).
-  unfold motor_in_range in G. apply andb_true_iff in G as [Ga Gt].
+  unfold motor_in_range in G. pose proof G as Ga.
   cbn. split; [exact R|]. split; [reflexivity|]. split; [rewrite R3; reflexivity|eexists; reflexivity].
 
 Qed.
@@ -467,7 +424,7 @@ Qed.
 Lemma motor_sleeps_nonneg : forall m o, motor_in_range m o = true ->
   Forall (fun q => 0 <= q) (sleeps (mevents (mstep m o))).
 Proof.
-  intros m o G. unfold motor_in_range in G. apply andb_true_iff in G as [Ga _].
+  intros m o G. unfold motor_in_range in G. pose proof G as Ga.
   destruct o as [v|ov| | | |t du|du v| | | |]; try (cbn; constructor).
   - destruct (speed_ok_spec v Ga) as [_ Cs]. cbn [mstep]. rewrite Cs. rewrite ok_with_events. cbn. constructor.
   - destruct (speed_ok_spec (dflt_back ov) Ga) as [_ Cs]. cbn [mstep]. rewrite Cs. rewrite ok_with_events. cbn. constructor.
